@@ -37,13 +37,31 @@ class Node:
         return where
 
 
+class _DropSite(int):
+    """block index of a drop terminator in a context frame, distinguished by the Result kind of the path that reaches it"""
+    def __new__(cls, bb, kind):
+        o = int.__new__(cls, bb)
+        o.kind = kind
+        return o
+
+    def __eq__(self, other):
+        return int(self) == int(other) and getattr(other, 'kind', self.kind) == self.kind and isinstance(other, _DropSite)
+
+    def __ne__(self, other):
+        return not self.__eq__(other)
+
+    def __hash__(self):
+        return hash((int(self), self.kind, 'drop'))
+
+
 class Trace:
-    def __init__(self, facts, entry, classify, relevant_fn=None, max_depth=12, const_args=None, classify_stmt=None, view=None):
+    def __init__(self, facts, entry, classify, relevant_fn=None, max_depth=12, const_args=None, classify_stmt=None, view=None, follow_drops=False):
         """classify(fn, bb, term, callee_record, local_target) -> list of event dicts (may be empty) for the
         terminator of block bb; classify_stmt is not needed: all events of interest are calls / drops.
         relevant_fn: set of Fn that must be inlined (those that transitively contain events); computed when None.
         const_args: {param local index: bool} constant specialisation of the entry's boolean parameters."""
         self.facts = facts
+        self.follow_drops = follow_drops
         # view(fn): the body to walk for fn -- by default fn itself; rule contexts pass the folded view (private non-role helpers inlined), so that an event
         # written in a small helper is seen inside the function that the rules reason about
         self.view = view or (lambda f: f)
@@ -193,7 +211,7 @@ class Trace:
                     if ct['target'] is None:
                         continue
                     rk = kind_after
-                    if ct['dest']['l'] == 0 and not ct['dest']['pr']:
+                    if ct.get('dest') is not None and ct['dest']['l'] == 0 and not ct['dest']['pr']:
                         ckind = rk      # `_0 = callee(..)`: the caller's result kind is the callee's
                     if rs and rk == 'ok' and rs['ok'] is not None:
                         m, new = self._node(cctx, cfn, rs['ok'], ckind)
@@ -266,6 +284,21 @@ class Trace:
                 else:
                     self.aborts.append(n.id)
                 continue
+            if k == 'drop' and self.follow_drops:
+                impls = [g for g in self._drop_impls(t.get('ty', '')) if g in self._relevant]
+                on_stack = [c[2] for c in ctx] + [self.entry]
+                impls = [g for g in impls if g not in on_stack]
+                if impls and len(ctx) < self.max_depth and t.get('target') is not None:
+                    # drop glue: the value's own `Drop::drop` (then those of its fields) runs here; only the first relevant one is walked, the rest are summarised
+                    g = impls[0]
+                    # (a drop passes the Result kind of the path through unchanged, and clean-up blocks are shared by the success and the failure path: one inlined copy per kind)
+                    nctx = ctx + ((fn, _DropSite(bb, kind_after), g),)
+                    if nctx not in conts:
+                        conts[nctx] = (ctx, fn, bb, kind_after, None)
+                    const_by_ctx[nctx] = {}
+                    m, new = self._node(nctx, g, 0, None)
+                    link(n, m, new)
+                    continue
             if k == 'switch':
                 # constant specialisation of boolean parameters
                 consts = const_by_ctx.get(ctx, {})
@@ -287,6 +320,32 @@ class Trace:
                 self.aborts.append(n.id)
             for s in ss:
                 go(s)
+
+    def _drop_impls(self, ty, depth=0, seen=None):
+        """the crate's own Drop::drop functions that dropping a value of type `ty` runs: the type's own impl first, then those of the types of its fields (through
+        RefCell / Rc / Box / Option / Vec wrappers, by name)"""
+        import re as _re
+        seen = seen if seen is not None else set()
+        out = []
+        if depth > 4:
+            return out
+        cache = getattr(self.facts, '_drop_of_adt', None)
+        if cache is None:
+            cache = self.facts._drop_of_adt = {}
+            for g in self.facts.fns:
+                if g.trait and g.trait.endswith('Drop') and g.name == 'drop' and g.self_adt:
+                    cache[g.self_adt] = g
+        for a in self.facts.doc['adts']:
+            pth = a['path']
+            if pth in seen or not _re.search(r'(?<![A-Za-z0-9_])' + _re.escape(pth) + r'(?![A-Za-z0-9_])', ty):
+                continue
+            seen.add(pth)
+            if pth in cache:
+                out.append(cache[pth])
+            for v in a['variants']:
+                for f in v['fields']:
+                    out.extend(self._drop_impls(f['ty'], depth + 1, seen))
+        return out
 
     def _param_of(self, fn, bb, l):
         """if local l (used as a switch discriminant in bb) is a plain copy of parameter p (possibly negated is NOT
